@@ -704,6 +704,28 @@ func buildAlignPlan(prop string) (*alPlan, error) {
 			pb.call(t2, pr[0], pr[1])
 		}
 	}
+	// F7b: tables of more than 65536 cells in every run (judged by C08's rule and a witness, see F8): a Global, then Locals of other
+	// widths on the same and on a shifted pair; symmetric and asymmetric matrices
+	for i, o := range opens(2) {
+		t := pb.table(alGenMatrix(r, fmt.Sprintf("large-%d", i), l4, alMatOpts{sym: i%2 == 1, open: o}))
+		x := alRandSeq(r, l4, 300)
+		y := alMutate(r, x, l4, 330)
+		allMatch := func(n int) []int {
+			w := make([]int, n)
+			for k := range w {
+				w[k] = 1
+			}
+			return w
+		}
+		pb.p.Cases = append(pb.p.Cases, alCase{Op: "global", T: t, A: ints(x), B: ints(y), Big: true})
+		if tb := &pb.p.Tables[t]; alLocalDomain(tb) || prop == "C09" {
+			pb.p.Cases = append(pb.p.Cases,
+				alCase{Op: "local", T: t, A: ints(x), B: ints(x[:280]), Wit: allMatch(280), Big: true},
+				alCase{Op: "local", T: t, A: ints(y[:260]), B: ints(y), Wit: allMatch(260), Big: true},
+				alCase{Op: "local", T: t, A: ints(x), B: ints(y), Big: true})
+		}
+		pb.p.Cases = append(pb.p.Cases, alCase{Op: "global", T: t, A: ints(x), B: ints(x), Wit: allMatch(300), Big: true})
+	}
 	// F8: flanks. a = x^n core, b = core y^n: the best alignment deletes one flank, matches the core and inserts the other flank -
 	// as far from the main diagonal as the table allows. The alignment is written down as a witness; beyond 300 x 300 the event is
 	// judged by the witness and C08's rule only (Big)
